@@ -19,6 +19,7 @@ import LinVerif.Lemmas.C06WriteThrough
 import LinVerif.Lemmas.C06Reset
 import LinVerif.Lemmas.C06Micro
 import LinVerif.Lemmas.C06Sync
+import LinVerif.Lemmas.C06Msync
 import LinVerif.Model.FanOutPark
 import LinVerif.Generated.C06
 
@@ -1265,6 +1266,100 @@ theorem expire_on_pending_drops_unacked :
     let good := run Variant.fixed (s.expire Variant.fixed false) [.create 0, .sync, .create 1]
     bad.q.ack = 11 ∧ lookup bad.live 1 = some ⟨11, 11, false⟩ ∧ bad.q.get 4 = .outOfRange ∧
     good.q.ack = 3 ∧ lookup good.live 1 = some ⟨11, 3, false⟩ ∧ good.q.get 4 = .ok 1 := by decide
+
+end Neg
+
+/-! ## Round 10: the msync windows of Ack and of queue.SetAcknowledgedSeq (Model/C06Msync.lean) -/
+
+open LinVerif.FanOut.Msync in
+/-- The msync shape of the current source, computed from the regenerated access tables: `Ack` does
+not store to `acknowledgedSeq` after its msync (a failure is only logged), `queue.SetAcknowledgedSeq`
+reads, stores, writes the page and msyncs under `rwMutex.Lock` in that order, and so does
+`queue.SetAppendedSeq`. -/
+theorem msync_shape_tie :
+    Msync.shapeOf Generated.C06.ackAccess Generated.C06.queueSetAckAccess = Msync.Shape.pinned ∧
+    Generated.C06.queueSetAckAccess = [("R", "acknowledgedSeq", "rwMutex.Lock"), ("R", "appendedSeq", "rwMutex.Lock"),
+      ("W", "acknowledgedSeq", "rwMutex.Lock"), ("W", "metaPage", "rwMutex.Lock"), ("C", "msync", "rwMutex.Lock")] ∧
+    Generated.C06.queueSetAppendedAccess = [("W", "appendedSeq", "rwMutex.Lock"), ("W", "acknowledgedSeq", "rwMutex.Lock"),
+      ("R", "appendedSeq", "rwMutex.Lock"), ("W", "metaPage", "rwMutex.Lock"), ("R", "acknowledgedSeq", "rwMutex.Lock"),
+      ("W", "metaPage", "rwMutex.Lock"), ("C", "msync", "rwMutex.Lock")] := by decide
+
+open LinVerif.FanOut.Msync in
+/-- An Ack whose msync is in flight — its new position already visible to Sync and GC — while ANY
+enabled operations of other goroutines run (Sync, GC, appends, other groups, creates; any number),
+and whose msync then returns WITH OR WITHOUT an error: the state is that of the history with the Ack as
+one step at its Store. Full strength over the operations in between; pinned shape (no roll-back). -/
+theorem ack_msync_linearizes (v : Variant) (s : State) (g : Nat) (n : Int) (failed : Bool) (mids : List Op) (a' : AState)
+    (h : arun Shape.pinned v { s := s, inflight := none } (AOp.ackBegin g n :: (mids.map AOp.op ++ [AOp.ackEnd failed])) = some a') :
+    a'.s = run v s (Op.ack g n :: mids) ∧ a'.inflight = none :=
+  ack_linearizes Shape.pinned rfl v s g n failed mids a' h
+
+open LinVerif.FanOut.Msync in
+/-- … therefore every clause survives it: from a state satisfying the sequential invariants, after the
+Ack, any reset-free operations during its msync, and the (possibly failed) return, the queue ack is at
+or below every live group's ack, every group is ordered, and every meta page holds the in-memory
+positions — a position Sync has seen is never taken back. -/
+theorem ack_msync_invariants (v : Variant) (hl : v.liftConsumed = true) (hf : v.freshAtQueueAck = true)
+    (s : State) (hb : Base s) (ho : Order s) (ha : Above s) (g : Nat) (n : Int) (failed : Bool) (mids : List Op)
+    (hv : Valid v (fun s o => o.okAt s) s (Op.ack g n :: mids)) (a' : AState)
+    (h : arun Shape.pinned v { s := s, inflight := none } (AOp.ackBegin g n :: (mids.map AOp.op ++ [AOp.ackEnd failed])) = some a') :
+    Base a'.s ∧ Order a'.s ∧ Above a'.s := by
+  rw [(ack_msync_linearizes v s g n failed mids a' h).1]
+  exact inv_run (I := fun s => Base s ∧ Order s ∧ Above s)
+    (fun s o hi ok => ⟨hi.1.step ok, Order.step hi.1 hi.2.1 ok (Or.inl hl), Above.step hi.1 hi.2.2 ok (Or.inl hf)⟩)
+    _ s ⟨hb, ho, ha⟩ hv
+
+open LinVerif.FanOut.Msync in
+/-- queue.SetAcknowledgedSeq in the locked shape, ANY number of concurrent callers (Sync from several
+goroutines) interleaved with index resets and puts, every enabled schedule: the queue ack never
+exceeds the appended position, moves only forward along reset-free schedules, and whenever the lock
+is free the meta page holds it. -/
+theorem set_ack_locked_safe (app ack : Int) (h0 : ack ≤ app) (ops : List QOp) (q' : QState)
+    (h : qrun Shape.pinned (QState.start app ack) ops = some q') :
+    q'.sh.qack ≤ q'.sh.appended ∧ (q'.lock = none → q'.sh.mAck = q'.sh.qack) ∧
+    ((∀ o ∈ ops, ∀ n, o ≠ QOp.reset n) → ack ≤ q'.sh.qack) := by
+  obtain ⟨hi, hm⟩ := QInvL.run (sp := Shape.pinned) rfl ops _ q' (QInvL.start app ack h0) h
+  exact ⟨hi.le, fun hl => (hi.free hl).1, hm⟩
+
+namespace Neg
+open LinVerif.FanOut.Msync
+
+/-- the shape of seeded change c06-17 -/
+def rollbackShape : Shape := { ackRollsBack := true, setAckLocked := true }
+/-- the shape of seeded change c06-3 -/
+def unlockedShape : Shape := { ackRollsBack := false, setAckLocked := false }
+
+/-- two groups, twelve messages, both consumed 0..7; group 1 acknowledged 7, group 0 acknowledged 2 -/
+def msyncS0 : State := run Variant.fixed State.init ([.create 0, .create 1] ++ rep 12 (.append 1) ++ rep 8 (.consume 0) ++
+  rep 8 (.consume 1) ++ [.ack 1 7, .ack 0 2, .sync])
+
+/-- Roll-back shape: Ack(6) of group 0 publishes 6, Sync moves the queue ack to 6, GC runs, the
+msync fails, the position is taken back to 2: the queue ack 6 is beyond the group's ack 2 and the
+message 3 the group has not acknowledged is out of range. The same schedule in the pinned shape ends
+with the group at 6. -/
+theorem ack_rollback_after_failed_msync_fails :
+    ((arun rollbackShape Variant.fixed { s := msyncS0, inflight := none } [.ackBegin 0 6, .op .sync, .op .gc, .ackEnd true]).map
+      (fun a => (a.s.q.ack, (lookup a.s.live 0).map (·.ack), a.s.q.get 3)) : Option (Int × Option Int × GetRes)) =
+      some (6, some 2, GetRes.outOfRange) ∧
+    ((arun Shape.pinned Variant.fixed { s := msyncS0, inflight := none } [.ackBegin 0 6, .op .sync, .op .gc, .ackEnd true]).map
+      (fun a => (a.s.q.ack, (lookup a.s.live 0).map (·.ack))) : Option (Int × Option Int)) = some (6, some 6) := by decide
+
+/-- Unlocked shape, two Syncs: caller 0 passes the guard with 5 and sits in its msync, caller 1
+moves the queue ack to 8, caller 0 publishes 5: the queue ack moved BACKWARDS (8 → 5) with the meta
+page at 8. Not enabled in the pinned shape (caller 1 waits for the lock). -/
+theorem set_ack_unlocked_moves_back :
+    ((qrun unlockedShape (QState.start 12 3) [.enter 0 5, .persist 0, .enter 1 8, .persist 1, .publish 1]).map (·.sh) : Option QSh) =
+      some { appended := 12, qack := 8, mAck := 8 } ∧
+    ((qrun unlockedShape (QState.start 12 3) [.enter 0 5, .persist 0, .enter 1 8, .persist 1, .publish 1, .publish 0]).map (·.sh) : Option QSh) =
+      some { appended := 12, qack := 5, mAck := 8 } ∧
+    ((qrun Shape.pinned (QState.start 12 3) [.enter 0 5, .enter 1 8]).map (·.sh) : Option QSh) = none := by decide
+
+/-- Unlocked shape, Sync ‖ index reset: the guard passes with 8, the reset puts the queue to (3, 3),
+the delayed publish leaves the queue ack 8 above the appended position 3. -/
+theorem set_ack_unlocked_above_appended :
+    ((qrun unlockedShape (QState.start 12 3) [.enter 0 8, .persist 0, .reset 3, .publish 0]).map (·.sh) : Option QSh) =
+      some { appended := 3, qack := 8, mAck := 3 } ∧
+    ((qrun Shape.pinned (QState.start 12 3) [.enter 0 8, .reset 3]).map (·.sh) : Option QSh) = none := by decide
 
 end Neg
 
